@@ -1024,6 +1024,14 @@ impl<'a> ExpressionLoweringManager<'a> {
     } = lower_source_expression(manager, &expression.body);
     lambda_stmts.append(&mut lowered_s);
     self.synthetic_functions.append(&mut synthetic_functions);
+    // Generic types that only occur in the types of captured variables or inside the body must
+    // be type parameters of the synthetic function as well.
+    let type_parameters = self.type_lowering_manager.with_generic_types_used_in_lambda_body(
+      type_parameters,
+      context_type,
+      &lambda_stmts,
+      &lowered_e,
+    );
 
     hir::Function {
       name: fn_name,
